@@ -15,7 +15,8 @@ RULE = (
     "edited listing; patch-created expressions are compared with what the "
     "assembler returned for that invocation. non-trivial = apply() returned "
     "with >=1 edit and >=1 expression or annotation compared; distinct = "
-    "distinct shape signatures."
+    "distinct shape signatures. Patch operands carry addends (also on "
+    "ARM64 pc-relative literal loads)."
 )
 ASSUMPTIONS = [
     "annotations keyed at offset == block size are not generated (they annotate no byte)",
